@@ -5,6 +5,7 @@ use std::collections::HashMap;
 mod cluster;
 mod mailbox;
 mod ratelim;
+mod registry;
 mod shutdown;
 
 pub struct Args(HashMap<String, String>);
@@ -58,6 +59,7 @@ fn main() {
         "ratelim_window" => ratelim::window(&args),
         "mailbox" => mailbox::run(&args),
         "shutdown" => shutdown::run(&args),
+        "registry" => registry::run(&args),
         "typegate" => mailbox::typegate(&args),
         "elect" => cluster::elect(&args),
         "elect_search" => cluster::elect_search(&args),
